@@ -389,6 +389,14 @@ class Engine:
                                   'itertools.product'):
                 return self.itertools_call(f.attr, n, ctx, ev)
             recv = ev.ev(f.value, ctx)
+            if isinstance(recv.ty, TRec) and recv.ty.name in getattr(self, 'unions', {}) and 's' in recv.ty.fields \
+                    and recv.ty.fields['s'] == STR and self.method_qual(recv.ty, f.attr) is None and not ctx.spec:
+                # a str method on a union-typed value (text | int | float): AttributeError unless it is the text kind; from here on the
+                # variable IS its text
+                ctx.exc('AttributeError', recv.ty.get('kind', recv.t) != self.unions[recv.ty.name]['str'])
+                recv = V(STR, recv.ty.get('s', recv.t))
+                if isinstance(f.value, ast.Name):
+                    ctx.env[f.value.id] = recv
             rr = recv
             am = getattr(self, 'abstract_methods', {})
             if isinstance(rr.ty, TAbs) and (rr.ty.name, f.attr) in am:
